@@ -32,3 +32,55 @@ Proof.
   induction argv as [|w ws IH]; cbn; [reflexivity|].
   destruct (is_dash w); cbn; [discriminate | assumption].
 Qed.
+
+(* ---- targets that may leave the runner cancelled ---- *)
+Theorem run_targets_e_prefix eff targets : exists rest, targets = ran_e (run_targets_e eff targets) ++ rest.
+Proof.
+  induction targets as [|t ts (rest & IH)]; cbn [run_targets_e]; [exists []; reflexivity|].
+  destruct (eff t); cbn [ran_e].
+  - exists rest. cbn [app]. f_equal. exact IH.
+  - exists ts. reflexivity.
+  - destruct ts; cbn [ran_e]; [exists []; reflexivity | eexists; reflexivity].
+Qed.
+
+(* exit status zero exactly when every requested target ran and none of them failed *)
+Theorem exit_e_zero_iff eff targets :
+  exit_e (run_targets_e eff targets) = 0 <->
+  (ran_e (run_targets_e eff targets) = targets /\ forallb (fun t => match eff t with EFail => false | _ => true end) targets = true).
+Proof.
+  induction targets as [|t ts IH]; cbn [run_targets_e forallb]; [cbn; tauto|].
+  destruct (eff t) eqn:E; cbn [ran_e exit_e].
+  - rewrite IH. cbn [andb]. split.
+    + intros (Hr & Hf). split; [f_equal; exact Hr | exact Hf].
+    + intros (Hr & Hf). injection Hr as Hr. split; assumption.
+  - split; [discriminate | intros (_ & H); discriminate].
+  - destruct ts as [|u ts']; cbn [ran_e exit_e forallb andb].
+    + split; [intros _; split; reflexivity | reflexivity].
+    + split; [discriminate | intros (Hr & _); discriminate].
+Qed.
+
+(* a refused target is the one right after a target that left the runner cancelled, and the process fails *)
+Theorem refused_e_spec eff targets u : refused_e (run_targets_e eff targets) = Some u ->
+  exit_e (run_targets_e eff targets) = 1 /\
+  exists pre t post, targets = pre ++ t :: u :: post /\ eff t = ECancelOk /\ ran_e (run_targets_e eff targets) = pre ++ [t].
+Proof.
+  induction targets as [|t ts IH]; cbn [run_targets_e]; [discriminate|].
+  destruct (eff t) eqn:E; cbn [refused_e exit_e ran_e].
+  - intros H. destruct (IH H) as (Hx & pre & t' & post & Ht & He & Hr). split; [exact Hx|].
+    exists (t :: pre), t', post. repeat split; [rewrite Ht; reflexivity | exact He | rewrite Hr; reflexivity].
+  - discriminate.
+  - destruct ts as [|v ts']; cbn [refused_e exit_e ran_e]; [discriminate|].
+    intros H. injection H as <-. split; [reflexivity|]. exists [], t, ts'. repeat split; assumption.
+Qed.
+
+(* without such targets this is the plain loop *)
+Theorem run_targets_e_plain eff targets : (forall t, In t targets -> eff t <> ECancelOk) ->
+  let r := run_targets (fun t => match eff t with EOk => true | _ => false end) targets in
+  ran_e (run_targets_e eff targets) = ran r /\ exit_e (run_targets_e eff targets) = exit_status r /\ refused_e (run_targets_e eff targets) = None.
+Proof.
+  induction targets as [|t ts IH]; intros H; cbn [run_targets_e run_targets]; [repeat split|].
+  destruct (eff t) eqn:E; cbn [ran_e exit_e refused_e ran exit_status].
+  - destruct (IH (fun x Hx => H x (or_intror Hx))) as (H1 & H2 & H3). rewrite H1, H2, H3. repeat split.
+  - repeat split.
+  - exfalso. exact (H t (or_introl eq_refl) E).
+Qed.
